@@ -1386,7 +1386,7 @@ void MatrixColAverage(matrix *m, dvector *colaverage)
       }
     }
 
-    if(FLOAT_EQ(average, 0.f, 1e-6))
+    if(n == 0)
         average = 0.f;
     else
         average /= (double)n;
